@@ -155,11 +155,41 @@ def expected_colors(case, ocolors):
     return exp
 
 
-def render_fails(case, desc, m, syn, ordered, orientation, sizes, per_kind, params):
+def label_width_fails(case, lay, onode, syn, ordered, width, tag):
+    """Wrapped labels of ONE drawing: no multi-word line longer than that drawing's width, no more lines than greedy wrapping."""
     fails = []
-    rec, onode, snode = RC.build_rec(case, m, syn, ordered)
+    name_of = {id(n): case.O.by_name[n.name] for n in onode.values()}
+    for s, L in lay.items():
+        for g, br in L.branches.items():
+            if isinstance(g, PseudoGene) or not br.name or "textsubscript" in br.name:
+                continue
+            u = name_of[id(g)]
+            fams = list(syn[u]) if ordered else sorted(syn[u])
+            if any(BS in f for f in fams):
+                continue        # an escaped backslash and the line-break marker are both a double backslash
+            lines = br.name.split(BS + BS)
+            for l in lines:
+                if len(l) > width and len(l.split()) > 1:
+                    fails.append(f"{tag}: label line {l!r} of {case.O.name[u]} is longer than the drawing's label width {width}")
+            greedy = textwrap.wrap(", ".join(esc(f) for f in (fams if ordered else sorted(esc(f) for f in fams))), width, break_long_words=False) if ordered else None
+            if greedy is not None and len(lines) > len(greedy):
+                fails.append(f"{tag}: label of {case.O.name[u]} uses {len(lines)} lines at width {width}, greedy wrapping needs {len(greedy)}")
+    return fails
+
+
+def render_fails(case, desc, m, syn, ordered, orientation, sizes, per_kind, params, shared=None):
+    fails = []
+    rec, onode, snode = shared if shared is not None else RC.build_rec(case, m, syn, ordered)
     lay, text, _ = RC.run_layout(rec, orientation, sizes, per_kind, params, swap=(orientation == Orientation.HORIZONTAL), render=True)
     tag = orientation.name.lower()
+    if syn is not None:
+        # the same reconciliation drawn again in the same interpreter with a narrow, then the default, then no label width:
+        # each drawing must obey ITS OWN width
+        fails += label_width_fails(case, lay, onode, syn, ordered, 18, tag)
+        for w in (6, 18, 40):
+            lay_w, _t, _ = RC.run_layout(rec, orientation, sizes, per_kind, dict(params, event_label_width=w),
+                                         swap=(orientation == Orientation.HORIZONTAL), render=True)
+            fails += label_width_fails(case, lay_w, onode, syn, ordered, w, f"{tag}, label width {w}")
     fails += [f"{tag}: {f}" for f in lex_fails(text)]
     exp = expected_colors(case, desc.get("ocolors") or {})
     name_of = {id(n): case.O.by_name[n.name] for n in onode.values()}
@@ -228,9 +258,10 @@ def concrete_failures(desc, m, syn, ordered, per_kind, values):
     nb = c14.count_branches(case, m)
     sizes, params = RC.concrete_sizes(values, nb, per_kind, False)
     out = []
+    shared = RC.build_rec(case, m, syn2, ordered)
     for o in (Orientation.VERTICAL, Orientation.HORIZONTAL):
         try:
-            out += render_fails(case, desc, m, syn2, ordered, o, sizes, per_kind, params)
+            out += render_fails(case, desc, m, syn2, ordered, o, sizes, per_kind, params, shared)
         except Exception as e:
             out.append(f"exception {type(e).__name__}: {e}")
     return out
@@ -249,9 +280,10 @@ def render_item(item):
         ctx, sizes, params = RC.make_ctx(nb, per_kind, False, item["max_paths"], item["budget_s"])
         for _ in ctx.paths():
             fails = []
+            shared = RC.build_rec(case, m, syn, ordered)
             for o in (Orientation.VERTICAL, Orientation.HORIZONTAL):
                 try:
-                    fails += render_fails(case, desc, m, syn, ordered, o, sizes, per_kind, params)
+                    fails += render_fails(case, desc, m, syn, ordered, o, sizes, per_kind, params, shared)
                 except Exception as e:
                     fails.append(f"exception {type(e).__name__}: {e}")
             nob = 2 * (6 + 2 * case.O.n)
